@@ -287,6 +287,14 @@ func checkBothSidesSorted(c *Ctx, f *ssa.Function) {
 			if x == nil {
 				continue
 			}
+			// a window of a list (ranging over local[i:]) walks the list itself
+			for {
+				sl, ok := x.(*ssa.Slice)
+				if !ok {
+					break
+				}
+				x = sl.X
+			}
 			if _, isSlice := x.Type().Underlying().(*types.Slice); !isSlice {
 				continue
 			}
@@ -705,7 +713,9 @@ func checkReplicationRounds(c *Ctx) {
 				}
 			}
 		}
-		if len(applies) == 0 || f.Signature.Results().Len() < 2 || !isUint(f.Signature.Results().At(0).Type()) {
+		// the round function itself (returns the index to resume from) or a helper of it that
+		// carries the apply phase and reports failure through its error
+		if len(applies) == 0 || core.ErrResultIndex(f) < 0 {
 			continue
 		}
 		name := core.FuncName(f)
@@ -797,41 +807,7 @@ func checkReplicationRounds(c *Ctx) {
 				r.Violate("C19.4", construct, p.Pos(ap.Pos()), "the apply step runs even when the computed difference is empty: a secondary that already equals the primary produces writes")
 			}
 			// C19.5
-			var errV ssa.Value
-			if ap.Referrers() != nil {
-				for _, rr := range *ap.Referrers() {
-					if ex, ok := rr.(*ssa.Extract); ok && core.IsErrorType(ex.Type()) {
-						errV = ex
-					}
-				}
-			}
-			if errV == nil {
-				r.Violate("C19.5", construct, p.Pos(ap.Pos()), "the error of the apply step is dropped")
-				continue
-			}
-			bad := ""
-			for _, cmp := range nilCmps(errV) {
-				te, fe := core.CondEdges(cmp)
-				nonNil := te
-				if cmp.Op == token.EQL {
-					nonNil = fe
-				}
-				for _, e := range nonNil {
-					nf := core.NewNilFlow(e.From, e.Succ, map[ssa.Value]core.Tri{errV: core.False})
-					for _, rt := range core.Returns(f) {
-						if !nf.Reached(rt.Block()) {
-							continue
-						}
-						if k, ok := core.ConstInt(core.ResolveResult(rt, 0)); !ok || k != 0 {
-							bad = "after this apply step failed the function can still return the remote index at " + p.Pos(rt.Pos())
-						}
-					}
-				}
-			}
-			if len(nilCmps(errV)) == 0 {
-				bad = "the error of the apply step is never tested"
-			}
-			if bad != "" {
+			if bad := failureMeansIndexZero(p, f, ap, 2); bad != "" {
 				r.Violate("C19.5", construct, p.Pos(ap.Pos()), bad+": the next round skips the objects that were not applied (their ModifyIndex is at or below the advanced index)")
 			} else {
 				r.Hold("C19.5", construct, p.Pos(ap.Pos()), "a failed apply step returns index 0")
@@ -841,4 +817,81 @@ func checkReplicationRounds(c *Ctx) {
 	r.Floor("C19.2", 3)
 	r.Floor("C19.4", 4)
 	r.Floor("C19.5", 4)
+}
+
+
+// failureMeansIndexZero: with the error of call known non-nil, f — when it is the round function
+// (first result: the index) — can only return index 0; when f is a helper that reports through its
+// error, it can only return a failure, and the same then holds for its callers in the package.
+func failureMeansIndexZero(p *core.Program, f *ssa.Function, call *ssa.Call, depth int) string {
+	var errV ssa.Value
+	if core.IsErrorType(call.Type()) {
+		errV = call
+	} else if call.Referrers() != nil {
+		for _, rr := range *call.Referrers() {
+			if ex, ok := rr.(*ssa.Extract); ok && core.IsErrorType(ex.Type()) {
+				errV = ex
+			}
+		}
+	}
+	if errV == nil {
+		return "the error of the apply step is dropped"
+	}
+	isRound := f.Signature.Results().Len() >= 2 && isUint(f.Signature.Results().At(0).Type())
+	if len(nilCmps(errV)) == 0 {
+		// `return helper(...)`-style forwarding of the error is fine for a helper
+		forwarded := false
+		if !isRound {
+			for _, rt := range core.Returns(f) {
+				if v := core.ResolveResult(rt, core.ErrResultIndex(f)); v == errV {
+					forwarded = true
+				}
+			}
+		}
+		if !forwarded {
+			return "the error of the apply step is never tested"
+		}
+	}
+	for _, cmp := range nilCmps(errV) {
+		te, fe := core.CondEdges(cmp)
+		nonNil := te
+		if cmp.Op == token.EQL {
+			nonNil = fe
+		}
+		for _, e := range nonNil {
+			nf := core.NewNilFlow(e.From, e.Succ, map[ssa.Value]core.Tri{errV: core.False})
+			for _, rt := range core.Returns(f) {
+				if !nf.Reached(rt.Block()) {
+					continue
+				}
+				if isRound {
+					if k, ok := core.ConstInt(core.ResolveResult(rt, 0)); !ok || k != 0 {
+						return "after this apply step failed the function can still return the remote index at " + p.Pos(rt.Pos())
+					}
+				} else if nf.ReturnKind(rt) != core.RetFailure {
+					return "after this apply step failed its helper can still report success at " + p.Pos(rt.Pos())
+				}
+			}
+		}
+	}
+	if isRound {
+		return ""
+	}
+	if depth <= 0 {
+		return "the apply step's failure is reported by a helper whose callers could not be followed"
+	}
+	sites := callersOf(p, f, "agent/consul")
+	if len(sites) == 0 {
+		return "the helper carrying the apply step has no caller"
+	}
+	for _, cs := range sites {
+		c2, ok := cs.(*ssa.Call)
+		if !ok {
+			return "the helper carrying the apply step is called in a go/defer statement"
+		}
+		if bad := failureMeansIndexZero(p, cs.Parent(), c2, depth-1); bad != "" {
+			return bad
+		}
+	}
+	return ""
 }
